@@ -235,8 +235,7 @@ func init() {
 			w := newWorld()
 			cw.w = w
 			// as in production (-allowed-relay-pattern, -default-relay-pattern)
-			w.ctx.allowedRelayPattern = c14Pattern
-			w.ctx.presumedPatternForLegacyClient = c14Pattern
+			w.installPatterns(c14Pattern, c14Pattern)
 			mux := c14Mux(w)
 			if cw.state > 0 {
 				beh := ansPrompt
